@@ -476,6 +476,9 @@ func exampleRecs() []sb.ARec {
 		{Name: "r1", Ref: 0, Mate: 0, Pos: 100, MPos: 300, MapQ: 30, Flags: 99, TLen: 250, Cigar: []sb.COp{{T: 4, L: 2}, {T: 0, L: 6}, {T: 2, L: 1}, {T: 0, L: 2}}, SeqLen: 10, SeqSeed: 1, HasQual: true,
 			Aux: []sb.AAux{{Tag: "NM", Ty: 'C', I: 1}, {Tag: "RG", Ty: 'Z', S: "g1"}, {Tag: "XA", Ty: 'A', I: 'Q'}, {Tag: "Xs", Ty: 's', I: -300}, {Tag: "Xi", Ty: 'i', I: -70000}, {Tag: "Xf", Ty: 'f', F: 1.5},
 				{Tag: "XB", Ty: 'B', Sub: 'S', BI: []int64{1, 2, 65535}}, {Tag: "Xb", Ty: 'B', Sub: 'f', BF: []float32{0.5, -1}}, {Tag: "Xc", Ty: 'B', Sub: 'c', BI: []int64{-1, 5}}}},
+		{Name: "arrays", Ref: 0, Mate: -1, Pos: 7, MPos: -1, MapQ: 9, Flags: 0, SeqLen: 4, SeqSeed: 4, Cigar: []sb.COp{{T: 0, L: 4}},
+			Aux: []sb.AAux{{Tag: "Bs", Ty: 'B', Sub: 's', BI: []int64{-3, 4, 5}}, {Tag: "Bi", Ty: 'B', Sub: 'i', BI: []int64{-70000, 2}}, {Tag: "BI", Ty: 'B', Sub: 'I', BI: []int64{4000000000}},
+				{Tag: "BC", Ty: 'B', Sub: 'C', BI: []int64{1, 2, 3, 4}}, {Tag: "Be", Ty: 'B', Sub: 'c', BI: nil}, {Tag: "XS", Ty: 'S', I: 65535}, {Tag: "Xc", Ty: 'c', I: -5}}},
 		{Name: "r2", Ref: 1, Mate: -1, Pos: 5, MPos: -1, MapQ: 0, Flags: 16, SeqLen: 5, SeqSeed: 2, Cigar: []sb.COp{{T: 0, L: 5}}, Aux: []sb.AAux{{Tag: "ZZ", Ty: 'Z', S: ""}, {Tag: "XI", Ty: 'I', I: 4000000000}}},
 		{Name: "unmapped", Ref: -1, Mate: -1, Pos: -1, MPos: -1, Flags: 4, SeqLen: 3, SeqSeed: 3, HasQual: true},
 	}
@@ -498,6 +501,18 @@ func buildSeeds() {
 		lines = append(lines, sb.SpecSAMLine(a, specs, 0))
 	}
 	seeds["bam_payload"] = [][]byte{payload, sb.SpecBAMHeader(nil, nil)}
+	// small inputs: one record with one aux field each, so that a mutation of a
+	// length or count field is likely to be the only damage
+	oneRef := []sb.RefSpec{{Name: "c", Len: 1000}}
+	for _, ax := range []sb.AAux{
+		{Tag: "Bs", Ty: 'B', Sub: 's', BI: []int64{-3, 4, 5}}, {Tag: "BS", Ty: 'B', Sub: 'S', BI: []int64{1, 2}}, {Tag: "Bi", Ty: 'B', Sub: 'i', BI: []int64{-70000, 2}},
+		{Tag: "BI", Ty: 'B', Sub: 'I', BI: []int64{4000000000}}, {Tag: "Bf", Ty: 'B', Sub: 'f', BF: []float32{0.5, -1}}, {Tag: "BC", Ty: 'B', Sub: 'C', BI: []int64{1, 2, 3, 4}},
+		{Tag: "ZZ", Ty: 'Z', S: "text"}, {Tag: "Xi", Ty: 'i', I: -70000},
+	} {
+		small := sb.SpecBAMHeader([]byte("@SQ\tSN:c\tLN:1000\n"), oneRef)
+		small = append(small, sb.SpecBAMRecord(sb.ARec{Name: "q", Ref: 0, Mate: -1, Pos: 3, MPos: -1, MapQ: 1, SeqLen: 2, SeqSeed: 5, Cigar: []sb.COp{{T: 0, L: 2}}, Aux: []sb.AAux{ax}})...)
+		seeds["bam_payload"] = append(seeds["bam_payload"], small)
+	}
 	raw := bz.BuildFile([][]byte{payload[:len(payload)/2], payload[len(payload)/2:]}, 6, true).Bytes
 	seeds["bam_raw"] = [][]byte{raw}
 	seeds["bgzf"] = [][]byte{raw, bz.BuildFile([][]byte{[]byte("hello"), nil, []byte("world")}, 0, true).Bytes, bz.EOFMarker}
@@ -523,6 +538,22 @@ func buildSeeds() {
 	if t, err := ix.BuildTBX(s, layout); err == nil {
 		d, _ := t.Write()
 		seeds["tabix"] = [][]byte{d}
+	}
+	tiny := ix.Spec{NRefs: 1, MinShift: 14, Recs: []ix.IRec{{Ref: 0, Start: 100, End: 200, Mapped: true, Step: 40}}}
+	tl := tiny.Layout()
+	if b, err := ix.BuildBAI(tiny, tl); err == nil {
+		d, _ := b.Write()
+		seeds["bai"] = append(seeds["bai"], d)
+	}
+	if t, err := ix.BuildTBX(tiny, tl); err == nil {
+		d, _ := t.Write()
+		seeds["tabix"] = append(seeds["tabix"], d)
+	}
+	tc := tiny
+	tc.Depth = 5
+	if c, err := ix.BuildCSI(tc, tl, 2, nil); err == nil {
+		d, _ := c.Write()
+		seeds["csi"] = append(seeds["csi"], d)
 	}
 	cs := s
 	cs.Depth = 5
@@ -550,7 +581,7 @@ func seedFor(target string) [][]byte {
 // mutation
 
 type Mut struct {
-	K   string // flip set ins del dup trunc i32 i16 splice
+	K   string // flip set ins del dup trunc i32 i16 splice len32 tok
 	Pos int
 	Val int64
 	N   int
@@ -560,16 +591,23 @@ var interesting32 = []int64{0, 1, -1, 2, 255, 256, 65535, 65536, 1 << 20, 1<<31 
 
 func mutGen() *rapid.Generator[Mut] {
 	return rapid.Custom(func(t *rapid.T) Mut {
-		m := Mut{K: rapid.SampledFrom([]string{"flip", "flip", "set", "set", "ins", "del", "dup", "trunc", "i32", "i32", "i32", "i16", "splice"}).Draw(t, "k"),
+		m := Mut{K: rapid.SampledFrom([]string{"flip", "flip", "set", "set", "ins", "del", "dup", "trunc", "i32", "i32", "i32", "i16", "splice", "len32", "len32", "len32", "tok", "tok"}).Draw(t, "k"),
 			Pos: rapid.IntRange(0, 1<<16).Draw(t, "pos")}
 		switch m.K {
 		case "flip":
 			m.Val = int64(1 << uint(rapid.IntRange(0, 7).Draw(t, "bit")))
 		case "set":
-			m.Val = int64(rapid.SampledFrom([]int{0, 1, 0x7f, 0x80, 0xff, '\t', '\n', ':', ',', '*', '@', '0', 'B', 'Z', 'H'}).Draw(t, "v"))
+			m.Val = int64(rapid.SampledFrom([]int{0, 1, 0x7f, 0x80, 0xff, '\t', '\n', '\r', ':', ',', '*', '@', '0', 'B', 'Z', 'H'}).Draw(t, "v"))
 		case "ins", "del", "dup", "splice":
 			m.N = rapid.IntRange(1, 12).Draw(t, "n")
 			m.Val = int64(rapid.Byte().Draw(t, "fill"))
+		case "len32":
+			// Pos selects one of the 32-bit words that look like a length, count or offset; Val how to spoil it
+			m.Val = int64(rapid.IntRange(0, len32Edits-1).Draw(t, "edit"))
+			m.N = rapid.IntRange(0, 3).Draw(t, "anywhere") // 0: any position
+		case "tok":
+			m.Val = int64(rapid.IntRange(0, len(tokens)-1).Draw(t, "tok"))
+			m.N = rapid.IntRange(0, 2).Draw(t, "snap") // non-zero: move to the next field or line boundary
 		case "i32", "i16":
 			m.Val = rapid.SampledFrom(interesting32).Draw(t, "iv")
 			if rapid.Bool().Draw(t, "small") {
@@ -578,6 +616,56 @@ func mutGen() *rapid.Generator[Mut] {
 		}
 		return m
 	})
+}
+
+// tokens inserted by the "tok" mutation: separators, line ends and numbers at
+// the edges of the integer types the text parsers use.
+var tokens = []string{"\r\n", "\n\r\n", "\r", "\n", "\n\n", "\t", "\t\t", ":", "::", ",", ",,", "*", "@", "@CO\t", "@SQ\tSN:", "\tLN:", "@HD\t", "B:", "H:", "Z:", "i:", "f:",
+	"-", "+", "2147483647", "2147483648", "4294967296", "-2147483649", "99999999999999999999", "0x1", "1e99", "NaN", "\x00", "=", "M", "268435456M"}
+
+const len32Edits = 12
+
+func spoil32(v uint32, edit int) uint32 {
+	switch edit {
+	case 0:
+		return v | 1<<31
+	case 1:
+		return v | 1<<30
+	case 2:
+		return v | 3<<30
+	case 3:
+		return v | 1<<29
+	case 4:
+		return v + 1
+	case 5:
+		return v - 1
+	case 6:
+		return v * 2
+	case 7:
+		return 1<<31 - 1
+	case 8:
+		return 1 << 31
+	case 9:
+		return ^uint32(0)
+	case 10:
+		return v + 1<<16
+	default:
+		return 0
+	}
+}
+
+// lengthLike lists the offsets whose little-endian 32-bit word is a small
+// non-zero number: lengths, counts and offsets of the binary formats.
+func lengthLike(b []byte) []int {
+	var out []int
+	lim := uint32(4*len(b) + 16)
+	for p := 0; p+4 <= len(b); p++ {
+		v := uint32(b[p]) | uint32(b[p+1])<<8 | uint32(b[p+2])<<16 | uint32(b[p+3])<<24
+		if v != 0 && v <= lim {
+			out = append(out, p)
+		}
+	}
+	return out
 }
 
 func apply(b []byte, ms []Mut) []byte {
@@ -611,6 +699,29 @@ func apply(b []byte, ms []Mut) []byte {
 			b = append(b[:e], append(seg, b[e:]...)...)
 		case "trunc":
 			b = b[:p]
+		case "len32":
+			q := p
+			if m.N != 0 {
+				if c := lengthLike(b); len(c) > 0 {
+					q = c[m.Pos%len(c)]
+				}
+			}
+			if q+4 <= len(b) {
+				v := spoil32(uint32(b[q])|uint32(b[q+1])<<8|uint32(b[q+2])<<16|uint32(b[q+3])<<24, int(m.Val))
+				b[q], b[q+1], b[q+2], b[q+3] = byte(v), byte(v>>8), byte(v>>16), byte(v>>24)
+			}
+		case "tok":
+			q := p
+			if m.N != 0 {
+				for q < len(b) && b[q] != '\n' && b[q] != '\t' {
+					q++
+				}
+				if q < len(b) && m.N == 2 {
+					q++ // after the separator: start of the next field or line
+				}
+			}
+			tok := tokens[int(m.Val)%len(tokens)]
+			b = append(b[:q], append([]byte(tok), b[q:]...)...)
 		case "i32":
 			if p+4 <= len(b) {
 				v := uint32(m.Val)
@@ -793,7 +904,7 @@ func draw(t *rapid.T) Case {
 		s := cramGen().Draw(t, "cram")
 		c.Cram = &s
 	}
-	c.Seed = rapid.IntRange(0, 7).Draw(t, "seed")
+	c.Seed = rapid.IntRange(0, 19).Draw(t, "seed")
 	c.Muts = rapid.SliceOfN(mutGen(), 0, 6).Draw(t, "muts")
 	return c
 }
